@@ -49,6 +49,11 @@ type world struct {
 	in      []string         // reference: group each client is in ("" none)
 	outcome string
 	kinds   []string
+	// lazyUsed: some message was handled while queues were non-empty; the
+	// per-message bookkeeping below (which attributes every user event to the
+	// membership at the time it is written) is then not exact, and only the
+	// quiescence oracle and the panic oracle are evaluated.
+	lazyUsed bool
 }
 
 func fresh(kinds []string) func() seqx.World {
@@ -86,9 +91,15 @@ func (w *world) Ops() []seqx.Op {
 			if i > 0 {
 				ops = append(ops, op{C: i, Kind: "join", Arg: "h"})
 			}
+			if w.has("lazy-membership") {
+				ops = append(ops, op{C: i, Kind: "join", Arg: "g", Lazy: true})
+			}
 			continue
 		}
 		ops = append(ops, op{C: i, Kind: "leave"}, op{C: i, Kind: "disconnect"})
+		if w.has("lazy-membership") {
+			ops = append(ops, op{C: i, Kind: "leave", Lazy: true})
+		}
 		if w.has("setdata") {
 			ops = append(ops, op{C: i, Kind: "setdata", Arg: "v"}, op{C: i, Kind: "setdata", Arg: ""})
 		}
@@ -141,6 +152,9 @@ func (w *world) observe(o sig.Obs) *core.Violation {
 		for _, m := range ms {
 			switch m["type"] {
 			case "user":
+				if w.lazyUsed {
+					continue
+				}
 				id := s(m["id"])
 				if w.w.Clients[k].Joined == "" {
 					return viol("user-event-to-non-member", fmt.Sprintf("c%d, which has not joined, was told about user %s (%v)", k, id, m["kind"]))
@@ -217,6 +231,9 @@ func (w *world) step(o sig.Obs) *core.Violation {
 func (w *world) Apply(x seqx.Op) *core.Violation {
 	o := x.(op)
 	w.outcome = o.Kind
+	if o.Lazy {
+		w.lazyUsed = true
+	}
 	var first sig.Obs
 	switch o.Kind {
 	case "task":
@@ -340,6 +357,7 @@ func (w *world) Canon() string {
 	for k := range w.w.Clients {
 		fmt.Fprintf(&b, "|%v%v", keys(w.deletes[k]), keys(w.departs[k]))
 	}
+	fmt.Fprintf(&b, "|lazy=%v", w.lazyUsed)
 	return b.String()
 }
 
@@ -355,7 +373,7 @@ func keys(m map[string]int) string {
 func (w *world) Outcome() string { return w.outcome }
 
 var alphabets = map[string][]string{
-	"membership": {"kick"},
+	"membership": {"kick", "lazy-membership"},
 	"moderation": {"kick", "op", "unop", "present", "unpresent", "lazy"},
 	"data":       {"setdata", "unpresent", "lazy"},
 }
